@@ -586,12 +586,12 @@ def compare_pair(lang, base_files, edited_files, res_a, res_b, mp, line_preservi
 def edit_kinds_for(prog):
     lang, origin = prog["lang"], prog["origin"]
     if lang == "python":
-        if origin in ("gen_py", "gen_flow", "gen_multi"):
+        if origin in ("gen_py", "gen_flow", "gen_multi", "gen_alias", "gen_nested"):
             return list(edits.KINDS_PY)
         if origin == "corpus":
             return ["blank-lines", "noop-stmt", "rename-local", "rename-param", "rename-function", "rename-class", "reorder-defs"]
         return ["blank-lines", "noop-stmt", "rename-local", "rename-param"]
-    if origin in ("gen_flow", "template", "gen_multi"):
+    if origin in ("gen_flow", "template", "gen_multi", "gen_nested"):
         ks = ["blank-lines", "noop-stmt", "reorder-defs"] + [k for k in RENAMES if prog.get("renamable", {}).get(k)]
         if lang == "javascript" and origin in ("gen_flow", "gen_multi"):
             ks.append("move-to-file")       # ES-module import (probed: `require` destructuring is not resolved by the frontend)
@@ -604,7 +604,10 @@ def apply_edit(prog, files, kind, seed, first, prev=()):
     A planned kind may carry a modifier:
       move-to-file@lib     move a function out of a library file that OTHER files import (it becomes a re-exporting module)
       move-to-file@again   move the function that the previous move-to-file step moved, once more (same effect)
-      reorder-defs@reverse the blocks of the first author-declared group in reverse order (subclass before superclass)"""
+      reorder-defs@reverse the blocks of the first author-declared group in reverse order (subclass before superclass)
+      move-to-file@existing move a function of the main file into an EXISTING module of the project (prog["existing_modules"])
+      rename-function@=N / rename-method@=N   rename exactly the module-level function N / the class member N (one of
+                           several declarations that share the spelling N)"""
     rng = random.Random(seed)
     lang = prog["lang"]
     kind, _, mod = kind.partition("@")
@@ -615,8 +618,15 @@ def apply_edit(prog, files, kind, seed, first, prev=()):
             return None
         rel = rng.choice(rels)
     libs = [r for r in prog.get("lib_files", []) if r in files]
-    only = None
+    only = mod[1:] if mod.startswith("=") else None
+    into = None
     helper_mode = False
+    if kind == "move-to-file" and mod.startswith("existing"):
+        only = mod.split("=", 1)[1] if "=" in mod else None
+        cands = [r for r in prog.get("existing_modules", []) if r in files]
+        if not cands or lang != "python":
+            return None
+        into = rng.choice(cands)
     if kind == "move-to-file" and mod == "again":
         last = next((st for st in reversed(prev) if st.kind == "move-to-file"), None)
         if last is None:
@@ -640,9 +650,9 @@ def apply_edit(prog, files, kind, seed, first, prev=()):
         elif kind == "reorder-defs":
             st = edits.py_reorder(files, rng, rel)
         elif kind == "move-to-file":
-            st = edits.py_move_to_file(files, rng, rel, protected=prot, only=only)
+            st = edits.py_move_to_file(files, rng, rel, protected=prot, only=only, into=into)
         else:
-            st = edits.py_rename(files, rng, rel, kind, protected=prot, multi_file=multi)
+            st = edits.py_rename(files, rng, rel, kind, protected=prot, multi_file=multi, only=only)
     else:
         repo = common.REPO
         if kind == "blank-lines":
@@ -661,6 +671,9 @@ def apply_edit(prog, files, kind, seed, first, prev=()):
                 st = edits.js_move_to_file(files, rng, rel, repo, None, protected=prot)
             elif first:
                 st = edits.js_move_to_file(files, rng, rel, repo, prog.get("def_groups", []), protected=prot)
+        elif only is not None:
+            types = ("property_identifier",) if kind == "rename-method" else ("identifier",)
+            st = edits.ts_rename_tokens(lang, files, rng, rel, repo, only, types, kind)
         else:
             names = [n for n in prog.get("renamable", {}).get(kind, []) if n not in prot]
             st = edits.ts_rename(lang, files, rng, rel, repo, names, kind)
@@ -730,7 +743,7 @@ def select_bases(tier, rng, repo):
     thorough = tier == "thorough"
     bases = []
     off = rng.randrange(1 << 20)
-    n_flow_py, n_genpy, n_flow_js = (10, 7, 7) if not thorough else (240, 150, 140)
+    n_flow_py, n_genpy, n_flow_js = (9, 6, 7) if not thorough else (230, 140, 140)
     n_multi = (3, 1, 2) if not thorough else (50, 16, 30)          # Python from-import, Python `import lib`, JavaScript
     for i in range(n_flow_py):
         bases.append(P.gen_flow(off + i, "python", import_list=(i % 4 == 0)))
@@ -748,6 +761,23 @@ def select_bases(tier, rng, repo):
             if g is not None:
                 g["forced"] = [["move-to-file@lib"], ["move-to-file@lib", rng.choice(["blank-lines", "rename-local", "noop-stmt", "move-to-file@again"])]]
                 bases.append(g)
+    # a bystander file imports a module under an alias; the move targets that existing module
+    combos = [("as", "before"), ("from-as", "before"), ("dotted", "before"), ("as", "after")]
+    if thorough:
+        combos = [(f, sd) for f in P.ALIAS_FORMS for sd in ("before", "after")] * 8
+    for i, (form, side) in enumerate(combos):
+        g = P.gen_alias(off + i, form, side)
+        mv = "move-to-file@existing" + (f"={g['alias_move_fn']}" if g.get("alias_move_fn") else "")
+        g["forced"] = [[mv], [mv, rng.choice(["blank-lines", "rename-local", "noop-stmt", "reorder-defs"])],
+                       [rng.choice(["rename-param", "blank-lines"]), mv]]
+        bases.append(g)
+    # classes nested two levels with a name that is a module-level function AND a member of the outer / inner class
+    for lang, n in zip(("python", "javascript", "typescript"), (2, 1, 1) if not thorough else (20, 12, 8)):
+        for i in range(n):
+            g = P.gen_nested(off + i, lang)
+            hp, pr = g["collide_outer"], g["collide_inner"]
+            g["forced"] = [[f"rename-function@={hp}"], [f"rename-method@={hp}"], [f"rename-function@={pr}"], [f"rename-method@={pr}", "blank-lines"]]
+            bases.append(g)
     tpls = P.templates()
     for t in tpls:
         if "hierarchy" in t["features"]:
@@ -792,6 +822,10 @@ def plan(bases, tier, rng):
             n = 4 if not thorough else 5
         elif prog["origin"] == "gen_multi":
             n = 4 if not thorough else 6
+        elif prog["origin"] == "gen_alias":
+            n = 3 if not thorough else 5
+        elif prog["origin"] == "gen_nested":
+            n = 4 if not thorough else 7
         elif prog["origin"] == "template":
             n = 4 if not thorough else 24
         elif prog["origin"] == "corpus":
@@ -1062,6 +1096,24 @@ def main():
             forms = [f for f in prog.get("features", ()) if f.startswith("import-") and f != "import-list"]
             for f in forms:
                 chk.count(f"re-export pairs: base uses {f}", 1)
+        into = [s for s in moves if s.detail.get("into_existing_module") and s.detail.get("aliased_by")]
+        if into:
+            chk.count("pairs in which a function was moved into an existing module that a bystander file imports under an alias", 1)
+            for f in prog.get("features", ()):
+                if f.startswith("alias-") or f.startswith("aliaser-"):
+                    chk.count(f"alias pairs: {f}", 1)
+            fns = {s.detail["function"] for s in into}
+            if any(e[2] and e[2][-1][2] in fns for e in ra.get("edges", [])):
+                chk.count("alias pairs whose base call graph has an edge into the moved function", 1)
+        if "nested-classes" in prog.get("features", ()):
+            col = {prog.get("collide_outer"), prog.get("collide_inner")}
+            ren = [s for s in p["steps"] if s.kind in RENAMES and s.detail.get("old") in col]
+            if ren:
+                chk.count("pairs renaming one of two declarations that share a name across a class body and the module level (nested classes)", 1)
+                if any(s.detail.get("old") == prog.get("collide_outer") for s in ren):
+                    chk.count("nested-class pairs: the colliding member belongs to the OUTER class", 1)
+                if any(b[0][2] in col and b[1][0] == "decl" for b in ra.get("bindings", [])):
+                    chk.count("nested-class pairs whose base binds the bare name used in the inner-class method to a declaration", 1)
         if any(s.detail.get("second_move_of_the_same_function") for s in moves):
             chk.count("pairs with two moves of the same function", 1)
         if any(s.kind == "reorder-defs" and s.detail.get("subclass_before_superclass") for s in p["steps"]):
@@ -1152,6 +1204,14 @@ def main():
     chk.require("pairs whose reordering put a subclass before its superclass", 4 if not thorough else 12)
     chk.require("subclass-first pairs whose base call graph has an edge into an inherited method", 3 if not thorough else 10)
     chk.require("pairs on class hierarchies with calls to inherited methods", 10 if not thorough else 60)
+    chk.require("pairs in which a function was moved into an existing module that a bystander file imports under an alias", 6 if not thorough else 120)
+    chk.require("alias pairs whose base call graph has an edge into the moved function", 3 if not thorough else 60)
+    chk.require("alias pairs: aliaser-before", 4 if not thorough else 60)
+    for f in P.ALIAS_FORMS:
+        chk.require(f"alias pairs: alias-{f}", 1 if not thorough else 25)
+    chk.require("pairs renaming one of two declarations that share a name across a class body and the module level (nested classes)", 8 if not thorough else 100)
+    chk.require("nested-class pairs: the colliding member belongs to the OUTER class", 4 if not thorough else 50)
+    chk.require("nested-class pairs whose base binds the bare name used in the inner-class method to a declaration", 6 if not thorough else 80)
     chk.require("pairs compared: origin corpus", 6 * q)
     chk.require("pairs compared: origin template", 12 if not thorough else 60)
     chk.assumptions += [
